@@ -86,7 +86,7 @@ class Ctx:
     # --- property oracle on the implementation -----------------------------------------------
     def fail(self, what, input, expected, observed, signature=None):
         self.failures.append({'what': what, 'input': input, 'expected': expected, 'observed': observed,
-                              'signature': signature or {}})
+                              'signature': signature or {}, 'seed': self.seed, 'tier': self.tier})
 
 
 def match_known(failure, findings, pid):
@@ -107,6 +107,20 @@ def write_replay(pid, kind, payload):
     return os.path.relpath(path, VERIF)
 
 
+def generic_search(prop, ctx, pid):
+    """failing-input search for properties without a directed one: the run's own generators and
+    oracles once more, implementation only, with other seeds"""
+    for k in range(1, 4):
+        c2 = Ctx(pid, ctx.tier, ctx.seed * 7919 + 104729 * k, False)
+        c2.budget_s = ctx.budget_s
+        prop.run(c2)
+        ctx.evaluations += c2.evaluations
+        ctx.dist['search_round_%d_cases' % k] = c2.evaluations
+        if c2.failures:
+            ctx.failures.extend(c2.failures)
+            break
+
+
 def run_check(pid, tier, replay=None):
     t0 = time.time()
     seed = common.seed_from_env()
@@ -116,8 +130,22 @@ def run_check(pid, tier, replay=None):
 
     if replay:
         payload = json.load(open(replay))
-        ctx = Ctx(pid, tier, seed, False)
-        ok = prop.replay(ctx, payload)
+        if 'failure' not in payload:
+            # a "no longer shown" report: nothing concrete to replay; re-run the whole check instead
+            print('replay %s names proof obligations / correspondences, not an input: re-running the check' % replay)
+            return run_check(pid, payload.get('tier', tier))
+        if hasattr(prop, 'replay'):
+            ctx = Ctx(pid, tier, seed, False)
+            ok = prop.replay(ctx, payload)
+        else:
+            # generic replay: regenerate the run's cases from the recorded seed and tier (generation is
+            # deterministic), run them on the implementation only, and look for the recorded input
+            fl = payload['failure']
+            ctx = Ctx(pid, fl.get('tier', payload.get('tier', tier)), fl.get('seed', payload.get('seed', seed)), False)
+            prop.run(ctx)
+            target = json.dumps(payload['failure']['input'], sort_keys=True, default=str)
+            ctx.failures = [f for f in ctx.failures if json.dumps(f['input'], sort_keys=True, default=str) == target]
+            ok = not ctx.failures
         print('replay %s: %s' % (replay, 'property holds on this input now' if ok else 'STILL FAILS'))
         for f in ctx.failures:
             print(json.dumps(f, default=str)[:2000])
@@ -173,6 +201,8 @@ def run_check(pid, tier, replay=None):
         searched = True
         if hasattr(prop, 'search'):
             prop.search(ctx, broken)
+        else:
+            generic_search(prop, ctx, pid)
 
     # 5. verdict -------------------------------------------------------------------------------
     new_failures, known_hits = [], {}
@@ -195,7 +225,7 @@ def run_check(pid, tier, replay=None):
                 continue
             seen.add(key)
             p = write_replay(pid, 'fail', {'property': pid, 'kind': 'failing-input', 'failure': f,
-                                           'broken': broken[:10], 'seed': seed, 'tier': tier,
+                                           'broken': broken[:10], 'seed': seed, 'tier': tier, 'searched': searched,
                                            'rerun': './check %s --replay <this file>' % pid})
             replay_paths.append(p)
             lines.append('VIOLATION property=%s replay=%s' % (pid, p))
